@@ -167,6 +167,10 @@ def parent_main(args) -> int:
         sys.stderr.write("\n".join(sorted(set(errors))[:2]) + "\n")
         print(f"HARNESS-ERROR property={args.id} ({len(errors)} shard(s)); see stderr")
         return 2
+    if timed_out and not replay_paths:
+        print(f"INCONCLUSIVE property={args.id}: {timed_out} of {nshards} shard(s) exceeded the {budget}s budget "
+              f"(evaluations so far {ev}); no verdict")
+        return 2
     if replay_paths:
         for v, path in replay_paths:
             print(f"VIOLATION property={args.id} replay={path}")
